@@ -260,6 +260,14 @@ class GroupbyChunks(Harness):
                 if tier == "thorough" or len(chunks) <= 2 or chunks == [1] * n:
                     out.append(dict(n=n, contigs=contigs, chunks=chunks, api="track_sum"))
                     out.append(dict(n=n, contigs=contigs, chunks=chunks, api="track_sum", via="get_data"))
+        # intervals turned into a streamed pileup and summed: an in-memory table streamed with as_stream() (its contigs in any order), and a
+        # stream of STRANDED interval chunks handed to Genome.get_intervals(..., stranded=True): every entry counts, or an error is raised
+        for contigs in ([0, 0, 1, 2], [0, 2, 2, 2], [1, 1, 1, 1], [0, 2, 1, 1], [2, 2, 0, 0], [2, 2, 2, 0], [0, 2, 2, 1], [1, 2, 0, 0], [0, 1, 2, 3]):
+            contigs = contigs + [contigs[-1]] * (n - 4)
+            out.append(dict(n=n, contigs=contigs, chunks=[n], api="pileup_sum", source="memory_as_stream"))
+            for chunks in compositions(n):
+                if tier == "thorough" or len(chunks) <= 2 or chunks == [1] * n:
+                    out.append(dict(n=n, contigs=contigs, chunks=chunks, api="pileup_sum", source="stranded_stream"))
         # two interval sets synchronised contig by contig (MultiStream, as forbes / jaccard do) and reduced to their contingency table:
         # an offender in EITHER set -- also at its very end -- must raise, whichever set is passed first
         for contigs in ([0, 0, 1, 2], [0, 2, 2, 2], [0, 2, 1, 1], [2, 2, 0, 0], [0, 1, 2, 3], [1, 2, 0, 0]):
@@ -320,6 +328,23 @@ class GroupbyChunks(Harness):
                     tot = tot + v_ * (int(b_) - int(a_))
                 return dict(total=tot, n_records=len(d))
             return dict(total=ctx.lst(compute(track.sum())))
+        if skel["api"] == "pileup_sum":
+            import bionumpy as bnp
+            from bionumpy.datatypes import StrandedInterval
+            from bionumpy.computation_graph import compute
+            names = [(self._C(skel) + ["zz"])[c] for c in skel["contigs"]]
+            pos = [3 * sum(1 for c in skel["contigs"][:i] if c == skel["contigs"][i]) for i in range(n)]
+            stops = [pos[i] + x[f"w{i}"] for i in range(n)]
+            g = bnp.Genome.from_dict({c: 20 for c in self._C(skel)})
+            if skel["source"] == "memory_as_stream":
+                gi = g.get_intervals(Interval(names, ctx.arr(pos, "int64"), ctx.arr(stops, "int64"))).as_stream()
+            else:
+                chunks, k = [], 0
+                for sz in skel["chunks"]:
+                    chunks.append(StrandedInterval(names[k:k + sz], ctx.arr(pos[k:k + sz], "int64"), ctx.arr(stops[k:k + sz], "int64"), ["+"] * sz))
+                    k += sz
+                gi = g.get_intervals(NpDataclassStream(iter(chunks), dataclass=StrandedInterval), stranded=True)
+            return dict(total=ctx.lst(compute(gi.get_pileup().sum())))
         if skel["api"] == "foreign_intervals":
             import bionumpy as bnp
             from bionumpy.datatypes import BedGraph
@@ -415,6 +440,12 @@ class GroupbyChunks(Harness):
             t = out["table"]
             both = 2 * len(set(skel["contigs"]))         # the first entry of every contig of B coincides with A's [0, 2)
             return [[int(v) for v in row] for row in t][0][0] == both and sum(int(v) for row in t for v in row) == 20 * len(self._C(skel))
+        if skel["api"] == "pileup_sum":
+            if isinstance(out, Exc):
+                return not self._track_ok(skel)
+            if not self._track_ok(skel):
+                return False
+            return TI(out["total"]) == sum([x[f"w{i}"].t for i in range(skel["n"])], z3.IntVal(0))
         if skel["api"] == "track_sum":
             if isinstance(out, Exc):
                 return not self._track_ok(skel)          # an error is due exactly when the order / the names do not fit the genome
@@ -457,6 +488,17 @@ class GroupbyChunks(Harness):
             t = [[int(v) for v in row] for row in cout["table"]]
             ok = t[0][0] == 2 * len(set(skel["contigs"])) and sum(map(sum, t)) == 20 * len(self._C(skel))
             return None if ok else f"{desc}: table {t}"
+        if skel["api"] == "pileup_sum":
+            names = [(self._C(skel) + ["zz"])[c] for c in skel["contigs"]]
+            how = ("an in-memory table streamed with as_stream()" if skel["source"] == "memory_as_stream"
+                   else f"a stream of stranded chunks of sizes {skel['chunks']} given to get_intervals(stranded=True)")
+            desc = f"intervals on contigs {names} (genome {self._C(skel)}) of widths {[cx[f'w{i}'] for i in range(skel['n'])]}, {how}, pileup summed"
+            if isinstance(cout, Exc):
+                return None if not self._track_ok(skel) else f"{desc}: raised {cout}"
+            if not self._track_ok(skel):
+                return f"{desc}: sum = {cout['total']} although the contig order / names do not fit the genome (entries misplaced or dropped without an error)"
+            exp = sum(cx[f"w{i}"] for i in range(skel["n"]))
+            return None if float(cout["total"]) == exp else f"{desc}: sum = {cout['total']}, expected {exp}"
         if skel["api"] == "track_sum":
             names = [(self._C(skel) + ["zz"])[c] for c in skel["contigs"]]
             desc = f"bedGraph stream with contigs {names} (genome {self._C(skel)}) cut into chunks of sizes {skel['chunks']}, values {[cx[f'w{i}'] for i in range(skel['n'])]} on 2 bases each, evaluated through {skel.get('via', 'sum')}"
